@@ -438,3 +438,53 @@ def alias_sites(P, rep, rule="ALIAS.sites"):
         else:
             rep.violation(rule, "%s no longer uses a 2*pi shift" % qn, F.loc, F.qn, "", "the longitude alias of a point is not considered", key="%s|%s" % (rule, qn),
                           witness="feature straddling the 180 meridian")
+
+
+def plume_head(P, rep, rule="EXPR.plumehead"):
+    rep.rule(rule, "between min depth and the first cross section the plume is closed by a half-ellipsoid: with a = first semi-major axis, "
+                   "b = a sqrt(1 - e^2), c = first depth - min depth, (x', y') the horizontal offset rotated by -theta and z = first depth - depth, "
+                   "the relative distance is x'^2/a^2 + y'^2/b^2 + z^2/c^2, evaluated under min_depth <= depth < first depth")
+    F = P.func("WorldBuilder::Features::Plume::properties")
+    R = lambda x: norm.render(P, x, nocast=True).replace(" ", "")
+    heads = [x for x in F.walk() if x.get("k") == "IfStmt" and R(x["c"][0]) in ("((depth>=min_depth)&&(depth<depths.front()))", "((min_depth<=depth)&&(depth<depths.front()))")]
+    if len(heads) != 1:
+        rep.violation(rule, "plume head condition `min_depth <= depth < depths.front()` not found", F.loc, F.qn, "", "the plume is not closed above its first cross section as documented",
+                      key=rule + "|cond", witness="depth between min depth and the first cross-section depth")
+        return
+    H = heads[0]
+    A, E_, D0, dmin, d, th, px, py, cx, cy = sp.symbols("A E D0 dmin depth theta px py cx cy", real=True)
+    depth_k = F.params[2]
+
+    def hook(n):
+        if n.get("k") == "DeclRefExpr" and n["r"] == depth_k:
+            return d
+        if n.get("k") == "DeclRefExpr" and n.get("n") in ("eccentricity", "rotation_angle"):
+            return {"eccentricity": E_, "rotation_angle": th}[n["n"]]
+        if n.get("k") == "MemberExpr" and astq.is_this_field(P, n, "min_depth"):
+            return dmin
+        mc = astq.member_call(P, n, "front")
+        if mc and astq.is_this_field(P, mc[0]):
+            return {"semi_major_axis_lengths": A, "depths": D0}.get(sc(mc[0]).get("n"))
+        s = astq.subscript(n)
+        if s and sc(s[1]).get("k") == "IntegerLiteral":
+            nm = sc(s[0]).get("n")
+            if nm == "surface_point":
+                return (px, py)[sc(s[1])["v"]]
+            if nm == "plume_center":
+                return (cx, cy)[sc(s[1])["v"]]
+        return None
+    B = Block(P, F, choose=lambda c: True, hook=hook)
+    B.sym.inline_locals = True
+    B.run(astq.stmts_of(H["c"][1]))
+    val = None
+    for (kind, tk, *rest), v in B.state.items():
+        if P.d(tk[1]).get("n") == "relative_distance_from_center":
+            val = v
+    xr = (px - cx) * sp.cos(th) + (py - cy) * sp.sin(th)
+    yr = -(px - cx) * sp.sin(th) + (py - cy) * sp.cos(th)
+    want = xr ** 2 / A ** 2 + yr ** 2 / (A ** 2 * (1 - E_ ** 2)) + (D0 - d) ** 2 / (D0 - dmin) ** 2
+    if val is not None and eq(val, want):
+        rep.ok(rule, "plume head: x'^2/a^2 + y'^2/(a^2(1-e^2)) + (D0-depth)^2/(D0-min_depth)^2", F.nloc(H), F.qn)
+    else:
+        rep.violation(rule, "plume head relative distance is %s" % str(val)[:120], F.nloc(H), F.qn, str(val)[:200], "expected the half-ellipsoid equation", key=rule + "|formula",
+                      witness="point in the plume head off the axis")
